@@ -28,6 +28,12 @@
 //! code over many seeds; the extremes measured by each run are written into the distribution
 //! (`measured x1e4 ...`).  Exact checks: the constraint on every returned intensity (and `Drive::NULL`
 //! outside the filter); byte-identical drives with disabled devices inserted and / or an all-true filter.
+//! After the coverage review (notes/coverage-review/C11-C15.md, C15; all oracle-only, see the `B ...` counters):
+//! PARTIAL filters for all five solvers (a device may be missing from the filter) with the exact oracle
+//! "filter = no filter on the geometry of the selected transducers only"; a third of the cases on devices
+//! with their own tilt and sound speed (`make_geo_posed`); non-default solver options (`Opt`: repeat,
+//! phase_div, LM initial / k_max) under the exact clauses, Greedy's phases checked against its candidates;
+//! the known-finding exemption restricted to its documented conditions (`is_known_clip`).
 //!
 //! `vh holo single` / `vh holo zero` print the calibration measurements (error distribution of a single
 //! target per solver; behaviour for degenerate amplitudes) instead of running the stream.
@@ -86,15 +92,62 @@ fn collect<G: Gain>(g: G, geo: &Geometry, filter: Option<&Filter>) -> Result<Dri
     }
 }
 
+/// solver options other than the constraint (`None` = the solver's default) — coverage review C15 gap 3
+#[derive(Clone, Debug, Default, PartialEq)]
+pub struct Opt {
+    /// GS / GSPAT: number of iterations (default 100)
+    pub repeat: Option<usize>,
+    /// Greedy: number of phase candidates (default 16)
+    pub phase_div: Option<u8>,
+    /// LM: the start vector, of length (selected transducers + foci): seed 0 = explicit zeros, otherwise
+    /// pseudo-random phases in [-pi, pi) (default: empty = zeros)
+    pub lm_initial: Option<u64>,
+    /// LM: iteration bound (default 5)
+    pub lm_k_max: Option<usize>,
+}
+impl Opt {
+    pub fn is_default(&self) -> bool {
+        *self == Opt::default()
+    }
+    pub fn tok(&self) -> String {
+        let mut v = vec![];
+        if let Some(r) = self.repeat {
+            v.push(format!("repeat{r}"));
+        }
+        if let Some(d) = self.phase_div {
+            v.push(format!("phasediv{d}"));
+        }
+        if let Some(i) = self.lm_initial {
+            v.push(format!("initial{i}"));
+        }
+        if let Some(k) = self.lm_k_max {
+            v.push(format!("kmax{k}"));
+        }
+        if v.is_empty() { "default".into() } else { v.join("+") }
+    }
+}
+
+/// number of transducers the solver works on: of the enabled devices, inside the filter
+pub fn selected_count(geo: &Geometry, filter: Option<&Filter>) -> usize {
+    geo.devices()
+        .map(|dev| match filter {
+            None => dev.num_transducers(),
+            Some(f) => f.get(&dev.idx()).map(|b| dev.iter().filter(|tr| b[tr.idx()]).count()).unwrap_or(0),
+        })
+        .sum()
+}
+
 pub fn solve<D: Directivity + 'static>(
     s: Solver,
     foci: &[(Point3, f32)],
     c: Option<EmissionConstraint>,
     geo: &Geometry,
     filter: Option<&Filter>,
+    opt: &Opt,
 ) -> Result<Drives, String> {
     let f: Vec<(Point3, Amplitude)> = foci.iter().map(|(p, a)| (*p, *a * Pa)).collect();
     let backend = Arc::new(NalgebraBackend::<D>::new());
+    let nz = |x: usize| std::num::NonZeroUsize::new(x.max(1)).unwrap();
     match s {
         Solver::Naive => {
             let mut o = NaiveOption::<D>::default();
@@ -108,12 +161,18 @@ pub fn solve<D: Directivity + 'static>(
             if let Some(c) = c {
                 o.constraint = c;
             }
+            if let Some(r) = opt.repeat {
+                o.repeat = nz(r);
+            }
             collect(GS::new(f, o, backend), geo, filter)
         }
         Solver::GSPAT => {
             let mut o = GSPATOption::<D>::default();
             if let Some(c) = c {
                 o.constraint = c;
+            }
+            if let Some(r) = opt.repeat {
+                o.repeat = nz(r);
             }
             collect(GSPAT::new(f, o, backend), geo, filter)
         }
@@ -122,12 +181,22 @@ pub fn solve<D: Directivity + 'static>(
             if let Some(c) = c {
                 o.constraint = c;
             }
+            if let Some(seed) = opt.lm_initial {
+                let len = selected_count(geo, filter) + foci.len();
+                o.initial = if seed == 0 { vec![0.0; len] } else { pr_bytes(seed, len).iter().map(|b| (*b as f32 / 256.0 - 0.5) * 2.0 * std::f32::consts::PI).collect() };
+            }
+            if let Some(k) = opt.lm_k_max {
+                o.k_max = nz(k);
+            }
             collect(LM::new(f, o, backend), geo, filter)
         }
         Solver::Greedy => {
             let mut o = GreedyOption::<D>::default();
             if let Some(c) = c {
                 o.constraint = c;
+            }
+            if let Some(d) = opt.phase_div {
+                o.phase_div = std::num::NonZeroU8::new(d.max(1)).unwrap();
             }
             collect(Greedy::<D>::new(f, o), geo, filter)
         }
@@ -167,21 +236,43 @@ const GRID: [(f32, f32); 4] = [(0.0, 0.0), (192.0, 0.0), (0.0, 151.4), (192.0, 1
 /// `mask[i]` = device i enabled.  The k-th ENABLED device sits on grid position k; disabled devices
 /// are put in between (their pose must not matter).
 pub fn make_geo(mask: &[bool]) -> Geometry {
+    make_geo_posed(mask, 0)
+}
+
+/// tilts (degrees about the device's x and y axes) of the posed geometries
+const TILTS: [(f32, f32); 4] = [(0.0, 0.0), (15.0, 0.0), (0.0, -15.0), (25.0, 10.0)];
+
+/// `pose = 0`: all devices flat in the z = 0 plane with the default sound speed (what the thresholds were first
+/// measured on).  `pose > 0` (coverage review C15 gap 2): the k-th ENABLED device is tilted by `TILTS[(k + pose) % 4]`
+/// about its own origin and has the sound speed 340e3 + 2e3 (k + 1) mm/s, so that `axial_direction()` and
+/// `wavenumber()` differ from device to device; disabled devices get yet another pose and sound speed.
+pub fn make_geo_posed(mask: &[bool], pose: u8) -> Geometry {
     let mut k = 0;
     let mut devs: Vec<Device> = vec![];
+    let mut speeds: Vec<f32> = vec![];
     for (i, &en) in mask.iter().enumerate() {
-        let pos = if en {
+        let (pos, tilt, ss) = if en {
             let p = GRID[k];
+            let t = if pose == 0 { (0.0, 0.0) } else { TILTS[(k + pose as usize) % 4] };
+            let ss = if pose == 0 { 340e3 } else { 340e3 + 2e3 * (k + 1) as f32 };
             k += 1;
-            Point3::new(p.0, p.1, 0.0)
+            (Point3::new(p.0, p.1, 0.0), t, ss)
         } else {
-            Point3::new(96.0 + 7.0 * i as f32, 75.0 - 5.0 * i as f32, 3.0 * i as f32)
+            (
+                Point3::new(96.0 + 7.0 * i as f32, 75.0 - 5.0 * i as f32, 3.0 * i as f32),
+                if pose == 0 { (0.0, 0.0) } else { (-20.0, 30.0) },
+                if pose == 0 { 340e3 } else { 331e3 + 1e3 * i as f32 },
+            )
         };
-        devs.push(AUTD3 { pos, ..Default::default() }.into());
+        devs.push(AUTD3 { pos, rot: EulerAngle::XYZ(tilt.0 * deg, tilt.1 * deg, 0.0 * deg) }.into());
+        speeds.push(ss);
     }
     let mut g = Geometry::new(devs);
     for (i, &en) in mask.iter().enumerate() {
         g[i].enable = en;
+        if pose != 0 {
+            g[i].sound_speed = speeds[i];
+        }
     }
     g
 }
@@ -474,7 +565,7 @@ fn map_answer(geo: &Geometry, filter: Option<&Filter>, m: usize) -> String {
 
 fn greedy_answer(geo: &Geometry, filter: Option<&Filter>, c: EmissionConstraint) -> String {
     let foci = vec![(small_foci(1)[0], 1.0f32)];
-    match solve::<Sphere>(Solver::Greedy, &foci, Some(c), geo, filter) {
+    match solve::<Sphere>(Solver::Greedy, &foci, Some(c), geo, filter, &Opt::default()) {
         Err(e) => if e.starts_with("panic") { "panic".into() } else { e },
         Ok(dr) => {
             let toks: Vec<String> = geo
@@ -583,6 +674,8 @@ fn rand_constraint(rng: &mut Rng, allow_panic: bool) -> EmissionConstraint {
 struct Ctx {
     out: Out,
     marg: BTreeMap<String, (f64, f64)>,
+    /// per solver: (probes, probes in which `repeat = 1` gave other drives than the default `repeat`)
+    repeat_probe: BTreeMap<String, (u32, u32)>,
 }
 impl Ctx {
     fn margin(&mut self, key: &str, v: f64) {
@@ -871,17 +964,109 @@ struct Case {
     foci: Vec<(Point3, f32)>,
     kind: Kind,
     pfull: Vec<f64>,
+    /// 0 = flat devices, default sound speed; otherwise see `make_geo_posed`
+    pose: u8,
+    opt: Opt,
 }
 
 fn case_text(c: &Case) -> String {
-    format!(
+    let mut t = format!(
         "holo dir={} solver={:?} constraint={} devices={} foci=[{}]",
         if c.dir == 'S' { "Sphere" } else { "T4010A1" },
         c.solver,
         c.constraint.map(|x| cons_tok(&x)).unwrap_or("default".into()),
         c.ndev,
         c.foci.iter().map(|(p, a)| format!("({},{},{};{}Pa)", p.x, p.y, p.z, a)).collect::<Vec<_>>().join(" ")
-    )
+    );
+    if c.pose != 0 {
+        t += &format!(" pose={} (k-th device tilted by TILTS[(k+pose)%4] deg about x,y; sound speed 340e3+2e3(k+1))", c.pose);
+    }
+    if !c.opt.is_default() {
+        t += &format!(" option={}", c.opt.tok());
+    }
+    t
+}
+
+/// a filter that selects only part of the transducers: one enabled device may be missing from the map or have an
+/// all-false entry (when another one has selected transducers), disabled devices may have entries (ignored)
+fn partial_filter(rng: &mut Rng, geo: &Geometry) -> Filter {
+    let en: Vec<usize> = geo.devices().map(|d| d.idx()).collect();
+    let absent = if en.len() >= 2 && rng.chance(1, 2) { Some(*rng.pick(&en)) } else { None };
+    let empty = if en.len() >= 2 && rng.chance(1, 4) { Some(*rng.pick(&en)) } else { None };
+    let keep = *rng.pick(&en.iter().copied().filter(|i| Some(*i) != absent).collect::<Vec<_>>());
+    let mut f = Filter::new();
+    for dev in geo.iter() {
+        let n = dev.num_transducers();
+        if !dev.enable {
+            if rng.chance(1, 2) {
+                f.insert(dev.idx(), BitVec::from_fn(n, |t| t % 3 != 0));
+            }
+            continue;
+        }
+        if Some(dev.idx()) == absent {
+            continue;
+        }
+        if Some(dev.idx()) == empty && dev.idx() != keep {
+            f.insert(dev.idx(), BitVec::from_elem(n, false));
+            continue;
+        }
+        let style = rng.below(4);
+        let salt = rng.next();
+        let bytes = pr_bytes(salt | 1, n);
+        let mut bits: Vec<bool> = (0..n)
+            .map(|t| match style {
+                0 => (t + salt as usize) % 2 == 0,
+                1 => bytes[t] < 128,
+                2 => bytes[t] < 192,
+                _ => t < n / 2 + (salt % 7) as usize,
+            })
+            .collect();
+        bits[(salt as usize >> 8) % n] = true;
+        f.insert(dev.idx(), BitVec::from_fn(n, |t| bits[t]));
+    }
+    f
+}
+
+/// the geometry that consists of the selected transducers only (same positions, same device rotation and sound
+/// speed; devices without a selected transducer are left out), and for each of its devices the (device, transducer
+/// indices) in `geo` it was made from
+fn rebuild_selected(geo: &Geometry, filter: &Filter) -> (Geometry, Vec<(usize, Vec<usize>)>) {
+    let mut devs = vec![];
+    let mut origin = vec![];
+    let mut speeds = vec![];
+    for dev in geo.devices() {
+        let Some(b) = filter.get(&dev.idx()) else { continue };
+        let sel: Vec<usize> = dev.iter().filter(|tr| b[tr.idx()]).map(|tr| tr.idx()).collect();
+        if sel.is_empty() {
+            continue;
+        }
+        devs.push(Device::new(*dev.rotation(), sel.iter().map(|t| Transducer::new(*dev[*t].position())).collect()));
+        speeds.push(dev.sound_speed);
+        origin.push((dev.idx(), sel));
+    }
+    let mut g = Geometry::new(devs);
+    for (k, ss) in speeds.iter().enumerate() {
+        g[k].sound_speed = *ss;
+    }
+    (g, origin)
+}
+
+/// the phase bytes Greedy can return with `div` candidates: `Phase::from(exp(i 2 pi k / div))`, computed as the code does
+fn greedy_phase_set(div: u8) -> [bool; 256] {
+    let mut set = [false; 256];
+    for i in 0..div {
+        let c = Complex::new(0., 2.0 * std::f32::consts::PI * i as f32 / div as f32).exp();
+        set[Phase::from(c).0 as usize] = true;
+    }
+    set
+}
+
+/// is a shortfall of a single reachable target an instance of the recorded finding (see `KNOWN_CLIP_KEY`)?  The
+/// documented conditions (coverage review C15 gap 4: the exemption must not absorb anything else): a linear solver
+/// under its default Clamp(0,255), some transducer driven at full scale, T4010A1 directivity or several devices, a
+/// request of at least half of the full-power focus, a shortfall between 2 % and the measured envelope
+fn is_known_clip(s: Solver, default_constraint: bool, dir: char, ndev: usize, frac: f64, clipped: bool, rel: f64) -> bool {
+    s.linear() && default_constraint && clipped && rel < -0.02 && rel >= KNOWN_CLIP_ENVELOPE && (dir == 'T' || ndev >= 2) && frac >= 0.5
 }
 
 fn check_constraint(c: &EmissionConstraint, s: Solver, dr: &Drives, geo: &Geometry, filter: Option<&Filter>) -> Option<String> {
@@ -947,10 +1132,10 @@ fn same_drives(a: &Drives, a_geo: &Geometry, b: &Drives, b_geo: &Geometry) -> Op
 fn run_case<D: Directivity + 'static>(ctx: &mut Ctx, rng: &mut Rng, c: &Case, variants: bool) {
     let s = c.solver;
     let mask = vec![true; c.ndev];
-    let geo = make_geo(&mask);
+    let geo = make_geo_posed(&mask, c.pose);
     let cons = c.constraint.unwrap_or(s.default_constraint());
     let text = case_text(c);
-    let key_base = format!(
+    let mut key_base = format!(
         "{}:{:?}:{}:d{}:m{}:{}",
         c.dir,
         s,
@@ -964,13 +1149,21 @@ fn run_case<D: Directivity + 'static>(ctx: &mut Ctx, rng: &mut Rng, c: &Case, va
             Kind::Free => "free",
         }
     );
+    if c.pose != 0 {
+        key_base += &format!(":pose{}", c.pose);
+    }
+    if !c.opt.is_default() {
+        key_base += &format!(":{}", c.opt.tok());
+    }
+    ctx.out.count(if c.pose == 0 { "B geometry flat (one orientation, one sound speed)" } else { "B geometry posed (per-device tilt and sound speed; oracle only)" });
+    ctx.out.count(&format!("B option {}", if c.opt.is_default() { "default".to_string() } else { format!("{:?} {} (oracle only)", s, c.opt.tok().split('+').map(|t| t.trim_end_matches(|ch: char| ch.is_ascii_digit()).to_string()).collect::<Vec<_>>().join("+")) }));
     let case_id = fnv64(text.as_bytes());
     ctx.out.case(Some(case_id));
     ctx.out.count(&format!("B solver {s:?}"));
     ctx.out.count(&format!("B directivity {}", c.dir));
     ctx.out.count(&format!("B constraint {}", c.constraint.map(|x| cons_kind(&x)).unwrap_or("default")));
     ctx.out.count(&format!("B devices {} foci {} path {}", c.ndev, c.foci.len(), if c.ndev < c.foci.len() { "rows" } else { "ptr" }));
-    let base = match solve::<D>(s, &c.foci, c.constraint, &geo, None) {
+    let base = match solve::<D>(s, &c.foci, c.constraint, &geo, None, &c.opt) {
         Ok(d) => d,
         Err(e) => {
             ctx.out.violation(format!("holo:fail:{key_base}"), format!("solver failed: {e}"), vec![text.clone()]);
@@ -981,6 +1174,19 @@ fn run_case<D: Directivity + 'static>(ctx: &mut Ctx, rng: &mut Rng, c: &Case, va
     if let Some(w) = check_constraint(&cons, s, &base, &geo, None) {
         ctx.out.violation(format!("holo:constraint:{key_base}"), w, vec![text.clone()]);
     }
+    // (e') Greedy: every returned phase is one of the `phase_div` candidates — exact
+    if s == Solver::Greedy {
+        let div = c.opt.phase_div.unwrap_or(16);
+        let set = greedy_phase_set(div);
+        let bad = geo.devices().flat_map(|dev| base[dev.idx()].as_ref().unwrap().iter().map(move |d| (dev.idx(), *d))).find(|(_, d)| !set[d.phase.0 as usize]);
+        if let Some((di, d)) = bad {
+            ctx.out.violation(
+                format!("holo:greedy-phase-candidates:{key_base}"),
+                format!("Greedy with phase_div = {div} returned phase {} on device {di}, which is none of the {div} candidates exp(2 pi i k / {div})", d.phase.0),
+                vec![text.clone()],
+            );
+        }
+    }
     // (a)–(d) numerical support checks
     let tag = format!("{} {:?}", c.dir, s);
     match &c.kind {
@@ -989,7 +1195,7 @@ fn run_case<D: Directivity + 'static>(ctx: &mut Ctx, rng: &mut Rng, c: &Case, va
             let pr = pressure::<D>(&geo, &base, &p);
             let rel = pr / a as f64 - 1.0;
             let clipped = geo.devices().any(|dev| base[dev.idx()].as_ref().unwrap().iter().any(|d| d.intensity.0 == 255));
-            let known_class = s.linear() && c.constraint.is_none() && clipped && rel < -0.02 && rel >= KNOWN_CLIP_ENVELOPE;
+            let known_class = is_known_clip(s, c.constraint.is_none(), c.dir, c.ndev, *frac, clipped, rel);
             if known_class {
                 ctx.margin(&format!("single {} linear solvers, some transducer clipped at 255 (known finding): P/a-1", c.dir), rel);
             } else {
@@ -1040,6 +1246,17 @@ fn run_case<D: Directivity + 'static>(ctx: &mut Ctx, rng: &mut Rng, c: &Case, va
             ctx.out.violation(format!("holo:focus-phase:{key_base}"), format!("phases differ from the Focus gain's by offsets spread over {w} steps"), vec![text.clone()]);
         }
     }
+    // (h) `repeat` is looked at: with several targets one iteration gives other drives than the default hundred
+    // (evaluated over the whole run, see `part_b`: a single coincidence is not a finding)
+    if let (Kind::Multi(_), true, true) = (&c.kind, matches!(s, Solver::GS | Solver::GSPAT), c.opt.is_default() && c.foci.len() >= 2) {
+        if let Ok(one) = solve::<D>(s, &c.foci, c.constraint, &geo, None, &Opt { repeat: Some(1), ..Opt::default() }) {
+            let e = ctx.repeat_probe.entry(format!("{s:?}")).or_insert((0, 0));
+            e.0 += 1;
+            if same_drives(&base, &geo, &one, &geo).is_some() {
+                e.1 += 1;
+            }
+        }
+    }
     if !variants {
         return;
     }
@@ -1050,7 +1267,7 @@ fn run_case<D: Directivity + 'static>(ctx: &mut Ctx, rng: &mut Rng, c: &Case, va
     for _ in 0..extra {
         xmask.insert(rng.below(xmask.len() as u64 + 1) as usize, false);
     }
-    let xgeo = make_geo(&xmask);
+    let xgeo = make_geo_posed(&xmask, c.pose);
     let mtxt = xmask.iter().map(|e| if *e { "e" } else { "d" }).collect::<Vec<_>>().join("");
     let variants: Vec<(&str, &Geometry, Option<Filter>)> = vec![
         ("disabled-devices", &xgeo, None),
@@ -1059,7 +1276,7 @@ fn run_case<D: Directivity + 'static>(ctx: &mut Ctx, rng: &mut Rng, c: &Case, va
     ];
     for (name, g, f) in variants {
         ctx.out.count(&format!("B variant {name}"));
-        match solve::<D>(s, &c.foci, c.constraint, g, f.as_ref()) {
+        match solve::<D>(s, &c.foci, c.constraint, g, f.as_ref(), &c.opt) {
             Err(e) => ctx.out.violation(format!("holo:variant-fail:{name}:{key_base}"), format!("with {name} (mask {mtxt}) the solver failed: {e}"), vec![text.clone(), format!("variant {name} mask={mtxt}")]),
             Ok(d) => {
                 if let Some(w) = check_constraint(&cons, s, &d, g, f.as_ref()) {
@@ -1084,10 +1301,102 @@ fn run_case<D: Directivity + 'static>(ctx: &mut Ctx, rng: &mut Rng, c: &Case, va
             }
         }
     }
+    // (g) PARTIAL filters (coverage review C15 gap 1), all five solvers, with and without disabled devices in
+    // between; some enabled device may be missing from the filter or have an all-false entry.  Exact: the constraint
+    // inside the filter and `Drive::NULL` outside; for the deterministic solvers the drives of the selected
+    // transducers are byte-identical to solving WITHOUT a filter on the geometry that consists of the selected
+    // transducers only (same positions, rotations, sound speeds).
+    for (name, g) in [("partial-filter", &geo), ("partial-filter+disabled", &xgeo)] {
+        let filter = partial_filter(rng, g);
+        let ftxt = {
+            let mut es: Vec<String> = g
+                .iter()
+                .map(|d| match filter.get(&d.idx()) {
+                    None => format!("{}:-", d.idx()),
+                    Some(b) => format!("{}:{}/{}#{:x}", d.idx(), b.iter().filter(|x| *x).count(), b.len(), fnv64(&b.iter().map(|x| x as u8).collect::<Vec<_>>()) & 0xffff),
+                })
+                .collect();
+            es.insert(0, format!("mask={}", g.iter().map(|d| if d.enable { 'e' } else { 'd' }).collect::<String>()));
+            es.join(" ")
+        };
+        let replay = vec![text.clone(), format!("variant {name}: filter (device:selected/transducers#hash, - = no entry) {ftxt}")];
+        ctx.out.count(&format!("B variant {name}"));
+        if g.devices().any(|d| !filter.contains_key(&d.idx())) {
+            ctx.out.count("B partial filter: an enabled device has no entry");
+        }
+        let d = match solve::<D>(s, &c.foci, c.constraint, g, Some(&filter), &c.opt) {
+            Err(e) => {
+                ctx.out.violation(format!("holo:variant-fail:{name}:{key_base}"), format!("with a partial filter ({ftxt}) the solver failed: {e}"), replay);
+                continue;
+            }
+            Ok(d) => d,
+        };
+        if let Some(w) = check_constraint(&cons, s, &d, g, Some(&filter)) {
+            ctx.out.violation(format!("holo:constraint:{name}:{key_base}"), format!("with a partial filter ({ftxt}): {w}"), replay.clone());
+        }
+        if s == Solver::Greedy {
+            let set = greedy_phase_set(c.opt.phase_div.unwrap_or(16));
+            if g.devices().any(|dev| d[dev.idx()].as_ref().unwrap().iter().any(|x| !set[x.phase.0 as usize])) {
+                ctx.out.violation(format!("holo:greedy-phase-candidates:{name}:{key_base}"), format!("with a partial filter ({ftxt}) Greedy returned a phase that is none of its candidates"), replay.clone());
+            }
+        } else {
+            let (rg, origin) = rebuild_selected(g, &filter);
+            match solve::<D>(s, &c.foci, c.constraint, &rg, None, &c.opt) {
+                Err(e) => ctx.out.violation(format!("holo:variant-fail:{name}:rebuilt:{key_base}"), format!("on the geometry of the selected transducers only the solver failed: {e}"), replay.clone()),
+                Ok(r) => {
+                    let mut bad: Option<String> = None;
+                    'o: for (k, (di, sel)) in origin.iter().enumerate() {
+                        for (j, t) in sel.iter().enumerate() {
+                            let (a, b) = (d[*di].as_ref().unwrap()[*t], r[k].as_ref().unwrap()[j]);
+                            if a != b {
+                                bad = Some(format!("transducer {di}.{t}: {a:?} with the filter, {b:?} as transducer {k}.{j} of the geometry that consists of the selected transducers only"));
+                                break 'o;
+                            }
+                        }
+                    }
+                    if let Some(w) = bad {
+                        ctx.out.violation(format!("holo:filter-equals-subgeometry:{name}:{key_base}"), format!("partial filter ({ftxt}): {w}"), replay.clone());
+                    }
+                }
+            }
+        }
+        // numerical support: one reachable target, requested relative to what the SELECTED transducers can deliver
+        if let (Kind::Single(frac), true, "partial-filter") = (&c.kind, c.opt.is_default(), name) {
+            let p = c.foci[0].0;
+            let mut fd = focus_drives(g, p);
+            for dev in g.devices() {
+                let b = filter.get(&dev.idx());
+                for (t, x) in fd[dev.idx()].as_mut().unwrap().iter_mut().enumerate() {
+                    if !b.is_some_and(|b| b[t]) {
+                        *x = Drive::NULL;
+                    }
+                }
+            }
+            let pf = pressure::<D>(g, &fd, &p);
+            let a = (pf * frac) as f32;
+            match solve::<D>(s, &[(p, a)], c.constraint, g, Some(&filter), &c.opt) {
+                Err(e) => ctx.out.violation(format!("holo:variant-fail:{name}:single:{key_base}"), format!("with a partial filter ({ftxt}) the solver failed: {e}"), replay.clone()),
+                Ok(d2) => {
+                    let rel = pressure::<D>(g, &d2, &p) / a as f64 - 1.0;
+                    let clipped = g.devices().any(|dev| d2[dev.idx()].as_ref().unwrap().iter().any(|x| x.intensity.0 == 255));
+                    let known_class = is_known_clip(s, c.constraint.is_none(), c.dir, c.ndev, *frac, clipped, rel);
+                    if known_class {
+                        ctx.margin(&format!("single {} linear solvers, some transducer clipped at 255 (known finding): P/a-1", c.dir), rel);
+                    } else {
+                        ctx.margin(&format!("single {tag} partial filter: P/a-1 (threshold +-{TH_SINGLE_REL})"), rel);
+                    }
+                    if rel.abs() > TH_SINGLE_REL {
+                        let key = if known_class { KNOWN_CLIP_KEY.to_string() } else { format!("holo:single-pressure:{name}:{key_base}") };
+                        ctx.out.violation(key, format!("partial filter ({ftxt}): requested {a} Pa = {frac:.2} of what the selected transducers deliver at full power, delivered {:+.1} % off", rel * 100.0), replay.clone());
+                    }
+                }
+            }
+        }
+    }
 }
 
-fn gen_case<D: Directivity + 'static>(rng: &mut Rng, dir: char, solver: Solver, ndev: usize, m: usize, kind: Kind, constraint: Option<EmissionConstraint>) -> Case {
-    let geo = make_geo(&vec![true; ndev]);
+fn gen_case<D: Directivity + 'static>(rng: &mut Rng, dir: char, solver: Solver, ndev: usize, m: usize, kind: Kind, constraint: Option<EmissionConstraint>, pose: u8, opt: Opt) -> Case {
+    let geo = make_geo_posed(&vec![true; ndev], pose);
     let ps = gen_foci(rng, ndev, m);
     let pfull: Vec<f64> = ps.iter().map(|p| pressure::<D>(&geo, &focus_drives(&geo, *p), p)).collect();
     let pmin = pfull.iter().cloned().fold(f64::INFINITY, f64::min);
@@ -1096,7 +1405,7 @@ fn gen_case<D: Directivity + 'static>(rng: &mut Rng, dir: char, solver: Solver, 
         Kind::Multi(fr) => ps.iter().map(|p| (*p, (pmin * fr / m as f64) as f32)).collect(),
         Kind::Free => ps.iter().zip(&pfull).map(|(p, pf)| (*p, (pf * (rng.below(2000) as f64 + 1.0) / 1000.0 / m as f64) as f32)).collect(),
     };
-    Case { dir, solver, constraint, ndev, foci, kind, pfull }
+    Case { dir, solver, constraint, ndev, foci, kind, pfull, pose, opt }
 }
 
 /// corpus: witnesses of past failures, run first, with stable keys
@@ -1110,7 +1419,7 @@ fn corpus(ctx: &mut Ctx, rng: &mut Rng) {
         (Solver::GSPAT, vec![(p, 0.0f32), (q, 0.0)], EmissionConstraint::Clamp(EmitIntensity(1), EmitIntensity(255))),
         (Solver::Naive, vec![(p, 0.0f32)], EmissionConstraint::Clamp(EmitIntensity(10), EmitIntensity(200))),
     ] {
-        let case = Case { dir: 'S', solver: s, constraint: Some(c), ndev: 1, foci, kind: Kind::Free, pfull: vec![] };
+        let case = Case { dir: 'S', solver: s, constraint: Some(c), ndev: 1, foci, kind: Kind::Free, pfull: vec![], pose: 0, opt: Opt::default() };
         run_case::<Sphere>(ctx, rng, &case, false);
         ctx.out.count("B corpus (zero-amplitude requests under Clamp(lo>0))");
     }
@@ -1123,9 +1432,28 @@ fn corpus(ctx: &mut Ctx, rng: &mut Rng) {
         foci: vec![(Point3::new(12.108704, 21.572826, 147.11), 6317.166)],
         kind: Kind::Single(0.7),
         pfull: vec![6317.166 / 0.7],
+        pose: 0,
+        opt: Opt::default(),
     };
     run_case::<T4010A1>(ctx, rng, &case, false);
     ctx.out.count("B corpus (known finding: T4010A1 linear solver clips)");
+}
+
+/// non-default solver options (half of the time): GS / GSPAT `repeat`, Greedy `phase_div`, LM `initial` / `k_max`
+fn rand_opt(rng: &mut Rng, s: Solver) -> Opt {
+    if rng.chance(1, 2) {
+        return Opt::default();
+    }
+    match s {
+        Solver::Naive => Opt::default(),
+        Solver::GS | Solver::GSPAT => Opt { repeat: Some(*rng.pick(&[1usize, 2, 100, 200])), ..Opt::default() },
+        Solver::Greedy => Opt { phase_div: Some(*rng.pick(&[1u8, 2, 3, 16, 255])), ..Opt::default() },
+        Solver::LM => Opt {
+            lm_initial: if rng.chance(2, 3) { Some(if rng.chance(1, 3) { 0 } else { rng.range(1, 1 << 20) }) } else { None },
+            lm_k_max: if rng.chance(1, 2) { Some(*rng.pick(&[1usize, 2, 8])) } else { None },
+            ..Opt::default()
+        },
+    }
 }
 
 fn part_b(ctx: &mut Ctx, rng: &mut Rng, thorough: bool) {
@@ -1139,31 +1467,38 @@ fn part_b(ctx: &mut Ctx, rng: &mut Rng, thorough: bool) {
                 };
                 let mut cases: Vec<(Case, bool)> = vec![];
                 macro_rules! mk {
-                    ($nd:expr, $m:expr, $k:expr, $c:expr, $v:expr) => {{
+                    ($nd:expr, $m:expr, $k:expr, $c:expr, $v:expr, $o:expr) => {{
                         let nd = $nd;
-                        let (m_, k_, c_) = ($m, $k, $c);
-                        let case = if dir == 'S' { gen_case::<Sphere>(rng, dir, s, nd, m_, k_, c_) } else { gen_case::<T4010A1>(rng, dir, s, nd, m_, k_, c_) };
+                        let (m_, k_, c_, o_) = ($m, $k, $c, $o);
+                        // (gap 2) a third of the cases on devices with their own tilt and sound speed
+                        let pose = if rng.chance(1, 3) { 1 + rng.below(3) as u8 } else { 0 };
+                        let case = if dir == 'S' { gen_case::<Sphere>(rng, dir, s, nd, m_, k_, c_, pose, o_) } else { gen_case::<T4010A1>(rng, dir, s, nd, m_, k_, c_, pose, o_) };
                         cases.push((case, $v));
                     }};
                 }
+                let dflt = Opt::default;
                 // single reachable target, default constraint (boundary fractions first)
                 let fr = [0.7, 0.1, 0.35, 0.6, 0.2][round % 5];
-                mk!(pick_ndev(rng), 1, Kind::Single(fr), None, true);
-                mk!(pick_ndev(rng), 1, Kind::Single(0.1 + 0.6 * rng.below(1001) as f64 / 1000.0), None, false);
+                mk!(pick_ndev(rng), 1, Kind::Single(fr), None, true, dflt());
+                // (gap 3) GS / GSPAT: every iterate serves a single target (theorem C) — any number of iterations
+                let o2 = if matches!(s, Solver::GS | Solver::GSPAT) && round % 2 == 1 { Opt { repeat: Some(*rng.pick(&[1usize, 2, 3, 200])), ..Opt::default() } } else { dflt() };
+                mk!(pick_ndev(rng), 1, Kind::Single(0.1 + 0.6 * rng.below(1001) as f64 / 1000.0), None, false, o2);
                 // out of reach
-                mk!(pick_ndev(rng), 1, Kind::Unreach(*rng.pick(&[1.2, 1.5, 3.0, 10.0])), None, round % 2 == 0);
+                mk!(pick_ndev(rng), 1, Kind::Unreach(*rng.pick(&[1.2, 1.5, 3.0, 10.0])), None, round % 2 == 0, dflt());
                 // several targets, device count on both sides of the path switch
                 let nd = pick_ndev(rng);
                 let m_rows = (nd + 1 + rng.below(8 - nd as u64) as usize).min(8);
-                mk!(nd, m_rows, Kind::Multi(0.2 + 0.4 * rng.below(1001) as f64 / 1000.0), None, true);
+                mk!(nd, m_rows, Kind::Multi(0.2 + 0.4 * rng.below(1001) as f64 / 1000.0), None, true, dflt());
                 let nd = if s == Solver::LM { 2 } else { rng.range(2, 4) as usize };
                 let m_ptr = rng.range(2, nd as u64) as usize;
-                mk!(nd, m_ptr, Kind::Multi(0.2 + 0.4 * rng.below(1001) as f64 / 1000.0), None, round % 2 == 1);
+                mk!(nd, m_ptr, Kind::Multi(0.2 + 0.4 * rng.below(1001) as f64 / 1000.0), None, round % 2 == 1, dflt());
                 // every constraint variant with arbitrary bounds: exact clauses only
                 for _ in 0..2 {
                     let c = rand_constraint(rng, false);
                     let nd = pick_ndev(rng);
-                    mk!(nd, rng.range(1, 8) as usize, Kind::Free, Some(c), true);
+                    // (gap 3) the other solver options, where only the exact clauses are checked
+                    let o = rand_opt(rng, s);
+                    mk!(nd, rng.range(1, 8) as usize, Kind::Free, Some(c), true, o);
                 }
                 for (case, variants) in &cases {
                     if dir == 'S' {
@@ -1178,6 +1513,17 @@ fn part_b(ctx: &mut Ctx, rng: &mut Rng, thorough: bool) {
             }
         }
     }
+    for (solver, (n, differ)) in std::mem::take(&mut ctx.repeat_probe) {
+        ctx.out.count_n(&format!("B option probe {solver}: repeat=1 vs default on several targets, runs"), n as u64);
+        ctx.out.count_n(&format!("B option probe {solver}: ... of which the drives differ"), differ as u64);
+        if n >= 3 && differ == 0 {
+            ctx.out.violation(
+                format!("holo:option-ignored:{solver}.repeat"),
+                format!("{solver} with repeat = 1 returned byte-identical drives to repeat = 100 in all {n} cases with several targets: the option has no effect"),
+                vec![format!("{solver}: any case with >= 2 targets, GSOption/GSPATOption {{ repeat: 1 }} vs default")],
+            );
+        }
+    }
 }
 
 pub fn run(args: &Args) {
@@ -1190,7 +1536,7 @@ pub fn run(args: &Args) {
         return;
     }
     let thorough = args.tier == "thorough";
-    let mut ctx = Ctx { out: Out::new(&args.out), marg: BTreeMap::new() };
+    let mut ctx = Ctx { out: Out::new(&args.out), marg: BTreeMap::new(), repeat_probe: BTreeMap::new() };
     let mut rng = Rng::new(args.seed ^ 0xC15);
     ctx.out.sample("conv C:64:192 3f000000:3f800000 → 128".into());
     ctx.out.sample("cols 3 e3,d2,e4 F0=101;2=0110 → n=4 0.0 0.2 2.1 2.2".into());
@@ -1212,7 +1558,7 @@ pub fn run(args: &Args) {
     }
     ctx.out.finish(
         "holo",
-        "part A: a case is one (constraint, value, max) conversion, or one (geometry, enable mask, filter, foci count) index-map query; non-trivial = at least one enabled device (index maps) / every conversion; distinct by the op text. part B: a case is one (directivity, solver, constraint, devices, target set) solve with its field evaluation, distinct by all of those",
+        "part A: a case is one (constraint, value, max) conversion, or one (geometry, enable mask, filter, foci count) index-map query; non-trivial = at least one enabled device (index maps) / every conversion; distinct by the op text. part B: a case is one (directivity, solver, constraint, devices, pose, options, target set) solve with its field evaluation, distinct by all of those; oracle-only dimensions shown by the `B geometry ...`, `B option ...`, `B variant partial-filter...` counters: per-device tilt / sound speed, solver options other than the constraint, partial filters (exact: NULL outside, constraint inside, byte-identical to the geometry of the selected transducers only)",
     );
 }
 
@@ -1222,7 +1568,7 @@ pub fn probe_zero() {
     for s in SOLVERS {
         for (name, foci) in [("zero", vec![(p, 0.0f32)]), ("two-zero", vec![(p, 0.0f32), (Point3::new(40.0, 60.0, 150.0), 0.0)]), ("one-zero-one-pos", vec![(p, 0.0f32), (Point3::new(40.0, 60.0, 150.0), 1000.0)]), ("neg", vec![(p, -1000.0f32)]), ("inf", vec![(p, f32::INFINITY)]), ("nan", vec![(p, f32::NAN)]), ("huge", vec![(p, 1e30f32)]), ("tiny", vec![(p, 1e-30f32)])] {
             let c = EmissionConstraint::Clamp(EmitIntensity(10), EmitIntensity(200));
-            match solve::<Sphere>(s, &foci, Some(c), &geo, None) {
+            match solve::<Sphere>(s, &foci, Some(c), &geo, None, &Opt::default()) {
                 Ok(d) => {
                     let v = d[0].as_ref().unwrap();
                     let mn = v.iter().map(|x| x.intensity.0).min().unwrap();
@@ -1246,7 +1592,7 @@ pub fn probe_single() {
                     let p = gen_foci(&mut rng, ndev, 1)[0];
                     let pf = pressure::<Sphere>(&geo, &focus_drives(&geo, p), &p);
                     let a = (pf * frac) as f32;
-                    let d = solve::<Sphere>(s, &[(p, a)], None, &geo, None).unwrap();
+                    let d = solve::<Sphere>(s, &[(p, a)], None, &geo, None, &Opt::default()).unwrap();
                     rels.push(pressure::<Sphere>(&geo, &d, &p) / a as f64 - 1.0);
                 }
                 rels.sort_by(|a, b| a.partial_cmp(b).unwrap());
